@@ -46,7 +46,7 @@ def run_one(m, baseline, tier):
         res = []
         status = "MISSED"
         for prop in m["props"]:
-            env2 = dict(os.environ, VERIF_REPO_DIR=dst, VERIF_EVIDENCE_DIR=os.path.join(d, "evidence"))
+            env2 = dict(os.environ, VERIF_REPO_DIR=dst, VERIF_EVIDENCE_DIR=os.path.join(d, "evidence"), VERIF_REPLAY_DIR=os.path.join(d, "replays"))
             t0 = time.time()
             c = subprocess.run([sys.executable, os.path.join(HERE, "run.py"), "check", prop, "--tier", tier], cwd=HERE, env=env2,
                                stdout=subprocess.PIPE, stderr=subprocess.STDOUT, text=True)
